@@ -295,6 +295,7 @@ def _conj(v):
     return Table(v.shape, {k: one(x) for k, x in v.data.items()})
 
 
+_CURRENT_CALL: list = []
 _DIVISORS: list = []  # the sums that were divided by since the list was last cleared (E19.act asks where they vanish)
 
 
@@ -789,6 +790,8 @@ class Interp:
                     return 0  # a single point
             if isinstance(base, QuadricSym) and e.attr == "array":
                 return base.matrix
+            if isinstance(base, bool) and e.attr in ("shape", "ndim"):
+                return () if e.attr == "shape" else 0  # a 0-d boolean array
             if isinstance(base, Table):
                 if e.attr == "T":
                     if len(base.shape) == 2:
@@ -995,6 +998,7 @@ class Interp:
                     if isinstance(ex, RaisedIn):
                         raise
                     args_.append(Opaque(str(ex)))
+            _CURRENT_CALL[:] = [e]  # (a hook that must know on which class a constructor-like method was called reads the call node)
             kw_ = {}
             for k_ in e.keywords:
                 if k_.arg is not None:
@@ -1065,7 +1069,7 @@ class Interp:
                 if isinstance(n, int):
                     return Table.full((n, n), lambda idx: LP.const(1 if idx[0] == idx[1] else 0))
                 raise Unknown("size of the identity")
-            if name in ("zeros", "ones") and e.args:
+            if name in ("zeros", "ones", "empty") and e.args:
                 shp = self.ev(e.args[0], env)
                 shp = (shp,) if isinstance(shp, int) else tuple(shp) if isinstance(shp, (list, tuple)) else None
                 if shp == ():
@@ -1081,6 +1085,9 @@ class Interp:
                 l_, r_ = self.ev(e.args[0], env), self.ev(e.args[1], env)
                 if isinstance(l_, (LP, int)) and isinstance(r_, (LP, int)) and not isinstance(l_, bool) and not isinstance(r_, bool):
                     return (self.lp(l_) - self.lp(r_)).rewrite(self.rules).is_zero()
+                if isinstance(l_, Table) and isinstance(r_, (LP, int)) and not isinstance(r_, bool):
+                    vals_ = {k_: (x_ - self.lp(r_)).rewrite(self.rules).is_zero() for k_, x_ in l_.data.items()}
+                    return Table(l_.shape, vals_) if l_.shape else vals_[()]
             if name in ("array", "asarray") and e.args:
                 v = self.ev(e.args[0], env)
                 if isinstance(v, Table):
@@ -1311,7 +1318,11 @@ class Interp:
             if name in ("all", "any") and len(e.args) == 1:
                 v = self.ev(e.args[0], env)
                 if isinstance(v, bool):
-                    return v
+                    return v  # (whatever axes are reduced: one truth value)
+                if isinstance(v, Table) and v.data and all(isinstance(x, bool) for x in v.data.values()) and (not e.keywords or self.generic):
+                    ax_ = next((self.ev(k_.value, env) for k_ in e.keywords if k_.arg == "axis"), None)
+                    if ax_ is None or (isinstance(ax_, (tuple, list)) and len(ax_) == len(v.shape)):
+                        return all(v.data.values()) if name == "all" else any(v.data.values())
                 if isinstance(v, (list, tuple)) and all(isinstance(x, bool) for x in v):
                     return all(v) if name == "all" else any(v)
             if name == "sum" and len(e.args) == 1 and isinstance(f, ast.Name):
@@ -1787,6 +1798,21 @@ class Interp:
                     buf.set(self.index(t.slice, env), self.num(v))
                 except (Unknown, NotPolynomial) as ex:
                     env[t.value.id] = Opaque(f"item assignment not read: {ex}")
+            elif isinstance(buf, TensorSym):
+                # item assignment on a library tensor (Tensor.__setitem__ writes into its array). The mask of a single object is one truth value:
+                # true replaces the coordinates, false writes nothing; anything else is not read and the coordinates are no longer known
+                try:
+                    idx_ = self.index(t.slice, env)
+                except (Unknown, NotPolynomial):
+                    idx_ = None
+                if idx_ is False:
+                    return
+                if idx_ is True and isinstance(v, TensorSym) and isinstance(v.array, Table) and isinstance(buf.array, Table) and v.array.shape == buf.array.shape:
+                    buf.array = v.array.copy()
+                elif idx_ is True and isinstance(v, Table) and isinstance(buf.array, Table) and v.shape == buf.array.shape:
+                    buf.array = v.copy()
+                else:
+                    buf.array = Opaque("item assignment on a tensor that is not read")
             return
         if isinstance(t, ast.Attribute) and isinstance(t.value, ast.Name) and isinstance(env.get(t.value.id), SymObject):
             obj_ = env[t.value.id]
@@ -3053,6 +3079,13 @@ def rule_join_meet(run: Run, prog: Program, part: str = "span") -> int:
 
 
 # ---------------------------------------------------------------------------------------------- parallels and mirror images (C10)
+def _called_on_point_class() -> bool:
+    """PointCollection.from_array(...) / Point.from_array(...): the class the hooked constructor-like method was called on"""
+    c = _CURRENT_CALL[0] if _CURRENT_CALL else None
+    f = c.func if c is not None else None
+    return isinstance(f, ast.Attribute) and isinstance(f.value, ast.Name) and f.value.id.startswith("Point")
+
+
 def rule_metric_constructions(run: Run, prog: Program) -> int:
     run.rule("E19.metric", "SubspaceTensor.parallel for a line of the plane and a plane of 3-space, and LineTensor.mirror in the plane, interpreted on symbolic "
                            "coordinates (join / meet through the interpreted duality dispatcher, the circular points and the line at infinity read from the module, "
@@ -3117,7 +3150,7 @@ def rule_metric_constructions(run: Run, prog: Program) -> int:
                     "TensorDiagram": lambda a_, k_: SymDiagram([tuple(x) for x in a_]) if all(isinstance(x, (list, tuple)) and len(x) == 2 for x in a_) else Opaque("diagram"),
                     "from_tensor": lambda a_, k_: a_[-1], "_divide_by_power_of_two": lambda a_, k_: a_[0],
                     "is_numerical_scalar": lambda a_, k_: isinstance(a_[0], (int, LP)) and not isinstance(a_[0], bool),
-                    "from_array": lambda a_, k_: vec([a_[-1]], False) if a_ and isinstance(a_[-1], Table) and len(a_[-1].shape) == 1 else Opaque("from_array"),
+                    "from_array": lambda a_, k_: vec([a_[-1]], _called_on_point_class()) if a_ and isinstance(a_[-1], Table) and len(a_[-1].shape) == 1 else Opaque("from_array"),
                     "join": lambda a_, k_: dual_call(a_, k_), "meet": lambda a_, k_: dual_call(a_, k_),
                     "Point": lambda a_, k_: vec(a_, True), "Line": lambda a_, k_: vec(a_, False), "Plane": lambda a_, k_: vec(a_, False)}
         return it
@@ -3155,6 +3188,88 @@ def rule_metric_constructions(run: Run, prog: Program) -> int:
                 continue
             run.add("E19.metric", fn_par.short, label, VIOLATION if problems else PROVEN,
                     "; ".join(problems) if problems else "passes through the point; its normal is a multiple of the normal of the subspace", fn_par.loc)
+    # the perpendicular of a line of the plane through a point (off the line: through the mirror image; on the line: through the normal direction),
+    # the foot of the perpendicular (project), and the perpendicular of a plane of 3-space through a point
+    fn_perp = prog.lookup(line_cls, "perpendicular")
+    fn_proj = prog.lookup(sub, "project")
+    plane_cls = prog.find_cls("PlaneTensor")
+    fn_pperp = prog.lookup(plane_cls, "perpendicular") if plane_cls else None
+    a, b, c = (LP.sym(f"l{i}") for i in range(3))
+
+    def planar(label: str, fn_, on_line: bool, foot: bool) -> None:
+        nonlocal n_ob
+        n_ob += 1
+        fn_ = prog.body_of(fn_)
+        l_ = obj("l", 3, False)
+        l_.__dict__["dim"] = 2
+        if on_line:
+            # a point of the line: the line joined... l x (u0, u1, u2) for a free vector u lies on l
+            u = [LP.sym(f"u{i}") for i in range(3)]
+            coords = [b * u[2] - c * u[1], c * u[0] - a * u[2], a * u[1] - b * u[0]]
+            p_ = TensorSym(Table((3,), {(i,): coords[i] for i in range(3)}), 1, 0)
+            p_.kinds = kinds_for(p_, 3)
+        else:
+            p_ = obj("p", 3, True)
+        x, y, w = (p_.array.data[(i,)] for i in range(3))
+        it = make_interp()
+        try:
+            res = it.run_method(fn_, l_, [p_], {})
+            if not isinstance(res, TensorSym) or not isinstance(res.array, Table) or res.array.shape != (3,):
+                raise Unknown(f"the result is not read ({getattr(res, 'why', type(res).__name__)[:60]})")
+            got = [res.array.data[(i,)] for i in range(3)]
+            if all(zero_mod(g_, it.rules) for g_ in got):
+                run.add("E19.metric", fn_.short, label, VIOLATION, "the result vanishes identically", fn_.loc)
+                return
+            if foot:
+                # the foot F of the perpendicular: on the line, and F/F_w - P/P_w parallel to the normal (a, b)
+                on = zero_mod(a * got[0] + b * got[1] + c * got[2], it.rules)
+                par = zero_mod((got[0] * w - x * got[2]) * b - (got[1] * w - y * got[2]) * a, it.rules)
+                ok, bad = on and par, "the projected point does not lie on the line" if not on else "the projected point is not the foot of the perpendicular through the point"
+                good = "the projected point lies on the line and its connection with the point has the direction of the normal"
+            else:
+                # the perpendicular g: through the point, and its normal orthogonal to the normal of the line
+                thr = zero_mod(got[0] * x + got[1] * y + got[2] * w, it.rules)
+                orth = zero_mod(got[0] * a + got[1] * b, it.rules)
+                ok, bad = thr and orth, "the perpendicular does not pass through the point" if not thr else "the constructed line is not orthogonal to the line"
+                good = "the constructed line passes through the point and its normal is orthogonal to the normal of the line"
+            run.add("E19.metric", fn_.short, label, PROVEN if ok else VIOLATION, good if ok else bad, fn_.loc)
+        except RaisedIn as r_:
+            run.add("E19.metric", fn_.short, label, VIOLATION, f"raises {r_.name} for a line and a point in general position", fn_.loc)
+        except (Unknown, NotPolynomial, RecursionError, KeyError, IndexError, TypeError, AttributeError) as ex:
+            run.add("E19.metric", fn_.short, label, UNDECIDED, f"not read: {type(ex).__name__}: {str(ex)[:100]}", fn_.loc)
+
+    if fn_perp is not None:
+        planar("perpendicular to a line of the plane through a point off the line", fn_perp, False, False)
+        planar("perpendicular to a line of the plane through a point of the line", fn_perp, True, False)
+    if fn_proj is not None and fn_perp is not None:
+        planar("foot of the perpendicular from a point to a line of the plane (project)", fn_proj, False, True)
+    if fn_pperp is not None:
+        n_ob += 1
+        fn_ = prog.body_of(fn_pperp)
+        label = "perpendicular to a plane of 3-space through a point"
+        e_, p_ = obj("e", 4, False), obj("p", 4, True)
+        e_.__dict__["dim"] = 3
+        it = make_interp()
+        try:
+            res = it.run_method(fn_, e_, [p_], {})
+            if not isinstance(res, TensorSym) or not isinstance(res.array, Table) or res.array.shape != (4, 4):
+                raise Unknown(f"the result is not a line of 3-space ({getattr(res, 'why', type(res).__name__)[:60]})")
+            x = [p_.array.data[(i,)] for i in range(4)]
+            nrm = [e_.array.data[(i,)] for i in range(3)] + [LP()]
+            # a line of 3-space is stored as the covariant-free 2-tensor L_ij = eps_ijkl x^k n^l (the dual of the wedge of two of its points)
+            eps = levi_civita(4, True).array.data
+            wedge = {(i, j): sum((eps[(i, j, k, l)] * x[k] * nrm[l] for k in range(4) for l in range(4) if not eps[(i, j, k, l)].is_zero()), LP()) for i in range(4) for j in range(4)}
+            keys = sorted(wedge)
+            got = res.array.data
+            ok = res.tensor_shape == (0, 2) and not all(got[k].is_zero() for k in keys) and all(
+                (got[k1] * wedge[k2] - got[k2] * wedge[k1]).is_zero() for i_, k1 in enumerate(keys) for k2 in keys[i_ + 1:])
+            run.add("E19.metric", fn_.short, label, PROVEN if ok else VIOLATION,
+                    "the constructed line is the join of the point with the point at infinity in the direction of the normal (a, b, c) of the plane" if ok else
+                    "the constructed line is not the join of the point with the point at infinity of the normal of the plane", fn_.loc)
+        except RaisedIn as r_:
+            run.add("E19.metric", fn_.short, label, VIOLATION, f"raises {r_.name} for a plane and a point in general position", fn_.loc)
+        except (Unknown, NotPolynomial, RecursionError, KeyError, IndexError, TypeError, AttributeError) as ex:
+            run.add("E19.metric", fn_.short, label, UNDECIDED, f"not read: {type(ex).__name__}: {str(ex)[:100]}", fn_.loc)
     fn_mir = prog.lookup(line_cls, "mirror")
     if fn_mir is not None:
         fn_mir = prog.body_of(fn_mir)
